@@ -29,7 +29,9 @@ RULE = ("cases: random rooted trees with 2..6 nodes (all ordered trees up to 5 n
         "library's matrix against the Lean model's own evaluation of the proved record (exact); plus 'treeval' cases: "
         "every site (root, child of the root, deeper) of every ordered tree with 2..4 nodes, integer TTNS / TTNO, the "
         "library's single-site effective Hamiltonian built with its own SandwichCache toward the site against the Lean "
-        "model's evaluation of the projected-Hamiltonian specification record (exact); "
+        "model's evaluation of the projected-Hamiltonian specification record (exact), and the same for EVERY edge "
+        "(link Hamiltonian, both sweep orientations, cache as the sweep leaves it) and EVERY adjacent pair (two-site "
+        "Hamiltonian, both orders of target / next, state after the library's own contract_nodes); "
         "non-trivial = distinct (tree shape, variant, seed) with at least 3 nodes or a redundant bond")
 PARTIAL = ["the local propagator itself (time_evolve) is property C20",
            "durations: proved for arbitrary segment lists (first_*/second_*/twoSite_* totals) and, with the C17 segment "
@@ -54,12 +56,19 @@ PARTIAL = ["the local propagator itself (time_evolve) is property C20",
            "about the block records is discharged from the tree model for EVERY site of every tree "
            "(site_heff_projected_tree with Ctx.exists_ctx: blocks of child subtrees = C04 soKidBlock, parent-direction "
            "block = the top-down contract_any recursion, Ctx.ctx_block_is_model, whose record is the sandwich record of "
-           "the complement of the site's subtree, Ctx.block_record_is_component_sandwich) - for the link and two-site "
-           "Hamiltonians the block-record hypothesis is NOT discharged at tree level (record level only); the value-level "
+           "the complement of the site's subtree, Ctx.block_record_is_component_sandwich) and likewise for EVERY edge "
+           "(link_heff_projected_tree, both sweep orientations, Ctx.exists_ctx_edge) and EVERY adjacent pair, both orders "
+           "of target / next (two_site_heff_projected_tree, two_site_heff_projected_tree_up); ONE program "
+           "(site_heff_whole_program with Ctx.ctx_block_built, soBlock_built_free): the matrix of the single-site "
+           "function is built by the model's complete tensordot sequence from the operator tensors of all nodes and the "
+           "ket / bra tensors of all nodes except the site, and every such program evaluates to E^H H E; the whole-program "
+           "form is NOT written for the link / two-site functions (their blocks enter as built tensors: link_heff_built, "
+           "two_site_heff_built + the same two block lemmas); the value-level "
            "semantics is tied to the code by the 'heffval' cases (integer tensors, the Lean model evaluates the proved "
-           "record with netValue and must reproduce the library's matrix exactly) and the 'treeval' cases (every site of "
-           "every ordered tree with 2..4 nodes: library matrix with its own cache toward the site = netValue of the "
-           "specification record of site_heff_projected_tree, exactly); provenance (C04 `Built`): site_heff_built, "
+           "record with netValue and must reproduce the library's matrix exactly) and the 'treeval' cases (every site, "
+           "every edge in both orientations, every adjacent pair in both orders of every ordered tree with 2..4 nodes: "
+           "library matrix with its own cache = netValue of the specification record of site_heff_projected_tree / "
+           "link_heff_projected_tree / two_site_heff_projected_tree(_up), exactly); provenance (C04 `Built`): site_heff_built, "
            "link_heff_built, two_site_heff_built and the unconditional site/link/two_site_heff_loop_value - the model "
            "function's own tensordot sequence is a strongly well-formed program with the proved record and value; that "
            "the MODEL's tensordot is NumPy's is C11 + correspondence; the "
@@ -402,18 +411,30 @@ def run_heff_values(ctx):
         _case_heff_value(ctx, c, mo)
 
 
-def _case_site_projected(ctx, case):
-    """`site_heff_projected_tree` (Ptn/C05/ProjectedTreeAll.lean) against the library, for a site at ANY position of the
-    tree: on integer tensors the matrix of `get_effective_single_site_hamiltonian` with the library's own cache toward
-    the site (`SandwichCache.init_cache_but_one`: leaf-to-root blocks for the children, the top-down `contract_any`
-    recursion for the parent-direction block) must equal, exactly, the Lean model's evaluation (`C04 einrec`, i.e.
-    `Ptn.Ein.netValue`) of the SPECIFICATION record of the theorem - the physical pairs of all other nodes, the ket and
-    bra bonds not at the site and all operator bonds - over the tensors of all other nodes and the whole TTNO."""
+def _prep_tree_projected(ctx, case):
+    """`site_heff_projected_tree`, `link_heff_projected_tree`, `two_site_heff_projected_tree(_up)` (Ptn/C05/
+    ProjectedTreeAll.lean, ProjectedTreeLink.lean, ProjectedTreeTwo.lean) against the library, on integer tensors, for
+    * kind "site": a site at ANY position of the tree - `get_effective_single_site_hamiltonian` with the library's own
+      cache toward the site (`SandwichCache.init_cache_but_one`: leaf-to-root blocks for the children, the top-down
+      `contract_any` recursion for the parent-direction block);
+    * kind "link": EVERY edge, both sweep orientations - `OneSiteTDVP._get_effective_link_hamiltonian(node, next)` with the
+      cache the sweep has at that moment: all blocks toward `node` (`init_cache_but_one(node)`) and the block
+      `(node, next)` built by the library's `update_tree_cache` (what `_update_cache_after_split` stores); the link node
+      is the only stand-in (parent side = the upper node, one child = the lower node);
+    * kind "pair": EVERY adjacent pair, both orders of (target, next) - `TwoSiteTDVP._get_effective_two_site_hamiltonian`
+      with the cache toward the target and the state after the library's own `contract_nodes(target, next)`.
+    The matrix must equal, exactly, the Lean model's evaluation (`C04 einrec`, i.e. `Ptn.Ein.netValue`) of the
+    SPECIFICATION record of the theorem: the physical pairs of all nodes not updated, ALL operator bonds, the ket / bra
+    bonds that do not touch an updated node (site, pair) resp. all of them except the opened bond (link) - over the ket /
+    bra tensors of those nodes and the whole TTNO.  Returns what `_judge_tree_projected` needs (None: case finished)."""
     import random
+    import types
+    from copy import deepcopy
     from harness import gen, einsum_corr
     from pytreenet.contractions.sandwich_caching import SandwichCache
     from pytreenet.contractions.effective_hamiltonians import get_effective_single_site_hamiltonian
-    par, site = list(case["par"]), case["site"]
+    kind = case.get("kind", "site")
+    par = list(case["par"])
     n = len(par)
     rng = random.Random(case["seed"])
     nprng = np.random.default_rng(case["seed"])
@@ -426,18 +447,66 @@ def _case_site_projected(ctx, case):
     finally:
         gen.rand_tensor = saved
     names = si["names"]
-    sname = names[site]
-    depth, j = 0, site
-    while par[j] >= 0:
-        depth, j = depth + 1, par[j]
+
+    def depth_of(j):
+        d = 0
+        while par[j] >= 0:
+            d, j = d + 1, par[j]
+        return d
+
+    if kind == "site":
+        site = case["site"]
+        sname = names[site]
+        depth = depth_of(site)
+        what = f"H_eff of site {sname} (depth {depth})"
+        drop, open_edge = {sname}, None
+    else:
+        c = case["edge"]
+        pn, cn = names[par[c]], names[c]
+        first, second = (pn, cn) if case["dir"] == 0 else (cn, pn)
+        depth = depth_of(c)
+        if kind == "link":
+            what = f"H_link of the edge {pn} - {cn} (node {first}, next {second}; lower node at depth {depth})"
+            drop, open_edge = set(), (pn, cn)
+        else:
+            what = f"two-site H_eff of the pair target {first}, next {second} (lower node at depth {depth})"
+            drop, open_edge = {pn, cn}, None
+    ctx.tally("treeval_kind", kind if kind == "site" else f"{kind} dir={case['dir']}")
     ctx.tally("treeval_site_depth", depth)
     ctx.tally("treeval_nodes", n)
+    two_nbrs = None
     try:
-        cache = SandwichCache.init_cache_but_one(ttns, ttno, sname)
-        mat = np.asarray(get_effective_single_site_hamiltonian(sname, ttns, ttno, cache))
+        if kind == "site":
+            cache = SandwichCache.init_cache_but_one(ttns, ttno, sname)
+            mat = np.asarray(get_effective_single_site_hamiltonian(sname, ttns, ttno, cache))
+        elif kind == "link":
+            from pytreenet.time_evolution.tdvp_algorithms.onesitetdvp import OneSiteTDVP
+            from pytreenet.core.node import Node
+            cache = SandwichCache.init_cache_but_one(ttns, ttno, first)
+            cache.update_tree_cache(first, second)
+            link_id = OneSiteTDVP.create_link_id(first, second)
+            ln = Node(identifier=link_id)
+            ln.add_parent(pn)
+            ln.add_children([cn])
+            fake = types.SimpleNamespace(state=types.SimpleNamespace(nodes={link_id: ln}), partial_tree_cache=cache,
+                                         create_link_id=OneSiteTDVP.create_link_id)
+            mat = np.asarray(OneSiteTDVP._get_effective_link_hamiltonian(fake, first, second))
+        else:
+            from pytreenet.time_evolution.tdvp_algorithms.twositetdvp import TwoSiteTDVP
+            cache = SandwichCache.init_cache_but_one(ttns, ttno, first)
+            st = deepcopy(ttns)
+            two_id = TwoSiteTDVP.create_two_site_id(first, second)
+            st.contract_nodes(first, second, new_identifier=two_id)
+            two_nbrs = list(st.nodes[two_id].neighbouring_nodes())
+            fake = types.SimpleNamespace(hamiltonian=ttno, partial_tree_cache=cache, state=st,
+                                         create_two_site_id=TwoSiteTDVP.create_two_site_id)
+            for name in ("_find_block_leg_target_node", "_find_block_leg_next_node",
+                         "_determine_two_site_leg_permutation", "_contract_all_except_two_nodes"):
+                setattr(fake, name, types.MethodType(getattr(TwoSiteTDVP, name), fake))
+            mat = np.asarray(TwoSiteTDVP._get_effective_two_site_hamiltonian(fake, first, second))
     except Exception as e:      # noqa: BLE001
-        ctx.oracle_fail(case, f"treeval: effective Hamiltonian of site {sname} raised {type(e).__name__}: {str(e)[:120]}")
-        return
+        ctx.oracle_fail(case, f"treeval: {what} raised {type(e).__name__}: {str(e)[:120]}")
+        return None
     num, dims, leaves = {}, [], []
 
     def lab(key, d):
@@ -458,7 +527,7 @@ def _case_site_projected(ctx, case):
             ol = [lab(("o", a, b), d) for b, d in zip(onb, ot.shape)] + \
                  [lab(("oo", a), ot.shape[-2]), lab(("oi", a), ot.shape[-1])]
             leaves.append((ol, np.round(ot.real).astype(np.int64)))
-            if a == sname:
+            if a in drop:
                 continue
             kl = [lab(("k", a, b), d) for b, d in zip(knb, kt.shape)] + [lab(("kp", a), kt.shape[-1])]
             bl = [lab(("b", a, b), d) for b, d in zip(knb, kt.shape)] + [lab(("bp", a), kt.shape[-1])]
@@ -471,19 +540,31 @@ def _case_site_projected(ctx, case):
                 continue
             a, b = names[p], names[c]
             pairs.append((num[("o", a, b)], num[("o", b, a)]))
-            if sname not in (a, b):
+            if a not in drop and b not in drop and (a, b) != open_edge:
                 pairs.append((num[("k", a, b)], num[("k", b, a)]))
                 pairs.append((num[("b", a, b)], num[("b", b, a)]))
-        snb = list(ttns.nodes[sname].neighbouring_nodes())
-        free = [num[("b", b, sname)] for b in snb] + [num[("oo", sname)]] + \
-               [num[("k", b, sname)] for b in snb] + [num[("oi", sname)]]
+        if kind == "site":
+            snb = list(ttns.nodes[sname].neighbouring_nodes())
+            rows_l = [num[("b", b, sname)] for b in snb] + [num[("oo", sname)]]
+            cols_l = [num[("k", b, sname)] for b in snb] + [num[("oi", sname)]]
+        elif kind == "link":
+            # rows / columns of `link_heff_graph`: the link tensor's own leg order (upper side, lower side)
+            rows_l = [num[("b", pn, cn)], num[("b", cn, pn)]]
+            cols_l = [num[("k", pn, cn)], num[("k", cn, pn)]]
+        else:
+            # rows / columns of `two_site_heff_graph`: the two-site node's own neighbour order, then target, next
+            t_nb = list(ttno.nodes[first].neighbouring_nodes())
+            side = [(b, first if b in t_nb else second) for b in two_nbrs]
+            rows_l = [num[("b", b, s)] for b, s in side] + [num[("oo", first)], num[("oo", second)]]
+            cols_l = [num[("k", b, s)] for b, s in side] + [num[("oi", first)], num[("oi", second)]]
+        free = rows_l + cols_l
     except (KeyError, ValueError) as e:
         ctx.oracle_fail(case, f"treeval: the library's tensors do not fit the tree ({type(e).__name__}: {e})")
-        return
+        return None
     for x, y in pairs:
         if dims[x] != dims[y]:
             ctx.oracle_fail(case, f"treeval: bound legs of dimensions {dims[x]} and {dims[y]}")
-            return
+            return None
     size = 1
     for x, _ in pairs:
         size *= dims[x]
@@ -491,38 +572,69 @@ def _case_site_projected(ctx, case):
         size *= dims[l]
     if size > 140000:
         ctx.tally("treeval", "skipped (too large)")
-        return
-    rows = int(np.prod([dims[l] for l in free[:len(snb) + 1]]))
+        return None
+    rows = int(np.prod([dims[l] for l in rows_l]))
     if mat.shape != (rows, rows):
-        ctx.oracle_fail(case, f"treeval: H_eff of {sname} has shape {mat.shape}, the state tensor has {rows} entries")
-        return
-    line = einsum_corr.einrec_line(dims, free, pairs, leaves)
-    ans = ctx.lean.batch([line])[0]
+        ctx.oracle_fail(case, f"treeval: {what} has shape {mat.shape}, the updated tensor has {rows} entries")
+        return None
+    return {"line": einsum_corr.einrec_line(dims, free, pairs, leaves), "mat": mat, "what": what, "depth": depth,
+            "kind": kind, "n": n}
+
+
+def _judge_tree_projected(ctx, case, prep, ans):
+    from harness import einsum_corr
     tab = einsum_corr.parse_table(ans, "full")
-    ctx.tally("treeval", "root site" if depth == 0 else ("child of the root" if depth == 1 else "deeper site"))
-    ctx.count(("treeval", tuple(par), site, case["seed"]), nontrivial=depth >= 1 and n >= 3, corr=True)
+    depth, kind, n = prep["depth"], prep["kind"], prep["n"]
+    if kind == "site":
+        ctx.tally("treeval", "root site" if depth == 0 else ("child of the root" if depth == 1 else "deeper site"))
+        ctx.count(("treeval", tuple(case["par"]), case["site"], case["seed"]), nontrivial=depth >= 1 and n >= 3,
+                  corr=True)
+    else:
+        ctx.tally("treeval", f"{kind}, lower node " + ("child of the root" if depth == 1 else "deeper"))
+        ctx.count(("treeval", kind, tuple(case["par"]), case["edge"], case["dir"], case["seed"]), nontrivial=n >= 3,
+                  corr=True)
     if tab is None:
         ctx.corr_fail(case, f"treeval: the value-level model rejects the specification record: [{ans[:120]}]")
         return
-    got = [complex(v) for v in mat.reshape(-1)]
+    got = [complex(v) for v in prep["mat"].reshape(-1)]
     if len(tab) != len(got) or any(complex(t) != g for t, g in zip(tab, got)):
-        ctx.oracle_fail(case, f"treeval: H_eff of site {sname} (depth {depth}) {got[:6]} differs from the Lean model's "
+        ctx.oracle_fail(case, f"treeval: {prep['what']} {got[:6]} differs from the Lean model's "
                               f"evaluation of the projected-Hamiltonian record on the same integer tensors {tab[:6]}")
+
+
+def _case_site_projected(ctx, case):
+    prep = _prep_tree_projected(ctx, case)
+    if prep is not None:
+        _judge_tree_projected(ctx, case, prep, ctx.lean.batch([prep["line"]])[0])
 
 
 def run_site_projected(ctx):
     from harness import gen
     rng = ctx.subrng("treeval")
+    rng2 = ctx.subrng("treeval-link-pair")
     shapes = [p for k in (2, 3, 4) for p in gen.all_ordered_trees(k)]
     cases = [{"via": "c05tree", "par": list(p), "site": s} for p in shapes for s in range(len(p))]
+    # every edge (= every adjacent pair) of every tree, both orientations, link and two-site
+    cases2 = [{"via": "c05tree", "kind": k, "par": list(p), "edge": c, "dir": d}
+              for p in shapes for c in range(len(p)) if p[c] >= 0 for d in (0, 1) for k in ("link", "pair")]
     reps = ctx.n(2, 20)
     for _ in range(reps):
+        if ctx.time_left() < 0:
+            return
+        todo = []
         for c in cases:
-            if ctx.time_left() < 0:
-                return
             c = dict(c)
             c["seed"] = rng.randrange(10 ** 9)
-            _case_site_projected(ctx, c)
+            todo.append(c)
+        for c in cases2:
+            c = dict(c)
+            c["seed"] = rng2.randrange(10 ** 9)
+            todo.append(c)
+        preps = [(c, _prep_tree_projected(ctx, c)) for c in todo]
+        preps = [(c, pr) for c, pr in preps if pr is not None]
+        outs = ctx.lean.batch([pr["line"] for _, pr in preps]) if preps else []
+        for (c, pr), ans in zip(preps, outs):
+            _judge_tree_projected(ctx, c, pr, ans)
 
 
 def run_case(ctx, case):
